@@ -1,6 +1,7 @@
 package basicnode
 
 import (
+	"fmt"
 	"io"
 
 	"github.com/ipld/go-ipld-prime/datamodel"
@@ -83,5 +84,45 @@ func (streamBytes) Prototype() datamodel.NodePrototype {
 	return Prototype__Bytes{}
 }
 func (n streamBytes) AsLargeBytes() (io.ReadSeeker, error) {
-	return n.ReadSeeker, nil
+	// Every caller gets a reader of its own, starting at the beginning:
+	// the underlying reader is shared by every read of this node, so its position is nobody's.
+	return &streamBytesView{rs: n.ReadSeeker}, nil
+}
+
+// streamBytesView reads the shared ReadSeeker of a streamBytes node from a position of its own:
+// it puts the shared reader where this view is before every read, and never relies on where it was left.
+type streamBytesView struct {
+	rs  io.ReadSeeker
+	off int64
+}
+
+func (v *streamBytesView) Read(p []byte) (int, error) {
+	if _, err := v.rs.Seek(v.off, io.SeekStart); err != nil {
+		return 0, err
+	}
+	n, err := v.rs.Read(p)
+	v.off += int64(n)
+	return n, err
+}
+
+func (v *streamBytesView) Seek(offset int64, whence int) (int64, error) {
+	var base int64
+	switch whence {
+	case io.SeekStart:
+	case io.SeekCurrent:
+		base = v.off
+	case io.SeekEnd:
+		end, err := v.rs.Seek(0, io.SeekEnd)
+		if err != nil {
+			return 0, err
+		}
+		base = end
+	default:
+		return 0, fmt.Errorf("basicnode: invalid whence %d", whence)
+	}
+	if base+offset < 0 {
+		return 0, fmt.Errorf("basicnode: negative position")
+	}
+	v.off = base + offset
+	return v.off, nil
 }
